@@ -33,6 +33,8 @@ ghostvar ga seq
 ghostvar gm int
 ghostvar gov int
 ghostvar gfisg bool
+ghostvar gfsh bool
+ghostvar gfpl bool
 ghostvar gfiv int
 ghostvar gu0 int
 ghostvar gi5 int
@@ -671,7 +673,13 @@ func (p *pp) printArg(arg interface{}, verb rune)
   assume [C05,C06,C08,C17] !safeTypeRegistry[safeWrapperType] && !safeTypeRegistry[unsafeWrapperType]
   ghost p.gdone = true before "p.printValue(f, verb, 0)"
   ghost p.gdone = true before "p.printValue(reflect.ValueOf(f), verb, 0)"
-  ensures [C15] verb == 119 && !old(p.erroring) && !old(p.fmt.sharpV) ==> (p.wrapErrs && !isnil(p.wrappedErr) && hasType(p.wrappedErr, "error") && old(p.wrapErrs) && isnil(old(p.wrappedErr))) || (!p.wrapErrs && isnil(p.wrappedErr))
+  ensures [C15] verb == 119 && !old(p.erroring) ==> (p.wrapErrs && !isnil(p.wrappedErr) && hasType(p.wrappedErr, "error") && old(p.wrapErrs) && isnil(old(p.wrappedErr))) || (!p.wrapErrs && isnil(p.wrappedErr))
+  -- "a correctly used %w renders exactly like %v": an error operand met while the capture is armed and empty is the
+  -- error to wrap, and from there on the operand is printed with the verb v (also where no method applies and
+  -- the value is rendered by reflection); any other %w keeps its verb and ends as a bad verb
+  assert [C15] old(verb) == 119 && hasType(arg, "error") && old(p.wrapErrs) && isnil(old(p.wrappedErr)) ==> verb == 118 && p.wrapErrs && p.wrappedErr == arg after "if err, ok := arg.(error); !ok"
+  assert [C15] old(verb) == 119 && !(hasType(arg, "error") && old(p.wrapErrs) && isnil(old(p.wrappedErr))) ==> verb == 119 after "if err, ok := arg.(error); !ok"
+  assert [C15] old(verb) != 119 ==> verb == old(verb) after "if err, ok := arg.(error); !ok"
   assume [C08] ref(f) != ref(p.buf.buf) before "defer p.startPreRedactable().restore()" #2
   assume [C08] ref(f) != ref(p.buf.buf) before "p.buf.Write([]byte(f))"
   requires B(p) && WP(p.fmt)
@@ -764,6 +772,13 @@ func (p *pp) doPrintf(format string, a []interface{})
   ghost p.gdf = format at entry
   ensures-always [C16] p.gdp == old(p.gdp) + 1 && p.gdk == 2 && p.gdar == ref(a) && p.gdao == off(a) && p.gdal == len(a) && sameView(p.gdf, format) && len(p.gdf) == len(format)
   requires [C15] p.gnw == 0 && p.gw0 == p.wrapErrs && isnil(p.wrappedErr)
+  -- the flags of %w mean what they mean for %v: '#' and '+' are moved to sharpV / plusV before the operand is printed
+  ghost gfsh = p.fmt.sharp before "if 'a' <= c && c <= 'z' && argNum < len(a)"
+  ghost gfpl = p.fmt.plus before "if 'a' <= c && c <= 'z' && argNum < len(a)"
+  assert [C15,C14] (c == 118 || c == 119) ==> p.fmt.sharpV == gfsh && p.fmt.plusV == gfpl && !p.fmt.sharp && !p.fmt.plus before "p.printArg(a[argNum], rune(c))"
+  ghost gfsh = p.fmt.sharp before "verb, size := rune(format[i]), 1"
+  ghost gfpl = p.fmt.plus before "verb, size := rune(format[i]), 1"
+  assert [C15,C14] (verb == 118 || verb == 119) ==> p.fmt.sharpV == gfsh && p.fmt.plusV == gfpl && !p.fmt.sharp && !p.fmt.plus before "p.printArg(a[argNum], verb)"
   ghost p.gnw = c == 119 ? p.gnw + 1 : p.gnw before "p.printArg(a[argNum], rune(c))"
   ghost p.ggood = (c == 119 && p.gnw == 1) ? (p.wrapErrs && !isnil(p.wrappedErr)) : p.ggood after "p.printArg(a[argNum], rune(c))"
   ghost p.gerr = (c == 119 && p.gnw == 1) ? p.wrappedErr : p.gerr after "p.printArg(a[argNum], rune(c))"
